@@ -191,6 +191,12 @@ func checkC10(c *CaseC10, fl *Fails) {
 }
 
 func sweepC10(tier string, emit func(*CaseC10)) {
+	for i, n := range roundSizes {
+		if tier == "quick" && i%3 != 1 {
+			continue
+		}
+		emit(&CaseC10{HV: rowBoxes(n, 8, 8), Exp: ref.Box{H: 3, X: 1, Y: 2, V: 5, F: -7}})
+	}
 	for h := int64(0); h <= 2; h++ {
 		for v := int64(0); v <= 2; v++ {
 			for x := int64(0); x < 1<<uint(h); x++ {
